@@ -480,6 +480,34 @@ impl Prop for C11 {
     fn exhaustive_note(_tier: Tier) -> Option<String> {
         Some("all inputs of length 0..=3 over 7 interesting byte values; all 256 type bytes; every strict prefix and every single before-start rewrite of 4 fixed streams at 3 entry points each; stored form of every length 0..=8".into())
     }
+    fn corpus(seed: u64) -> Vec<Vec<u8>> {
+        use proptest::strategy::ValueTree;
+        use proptest::test_runner::{Config, RngAlgorithm, TestRng, TestRunner};
+        let mut bytes = [0u8; 32];
+        bytes[..8].copy_from_slice(&seed.to_le_bytes());
+        let mut runner = TestRunner::new_with_rng(Config::default(), TestRng::from_seed(RngAlgorithm::ChaCha, &bytes));
+        let mut out = Vec::new();
+        for lz11 in [false, true] {
+            let st = proptest::collection::vec(tok_strategy(lz11), 0..24);
+            for i in 0..60 {
+                let toks = st.new_tree(&mut runner).unwrap().current();
+                let kind = if lz11 { Kind::Lz11 } else { Kind::Lz10 };
+                let stream = reflz::encode(kind, &build_tokens(lz11, &toks, 4096));
+                if stream.len() > 1500 {
+                    continue;
+                }
+                if lz11 && i % 2 == 0 {
+                    let mut w = vec![0x13, 1, 2, 3];
+                    w.extend_from_slice(&stream);
+                    out.push(w);
+                } else {
+                    out.push(stream);
+                }
+            }
+        }
+        out.push(vec![0, 3, 0, 0, 1, 2, 3]);
+        out
+    }
     fn shrink(c: &Case) -> Vec<Case> {
         match c {
             Case::Stream { lz11, tokens, entry, damage } if !tokens.is_empty() => {
